@@ -61,17 +61,14 @@ def run_verus_unit(repo, unit_name, variant, workdir, log, only_fns=None):
         try:
             u2 = unit
             if helpers:
-                # helper functions called by a function under contract but not listed in the unit are extracted
-                # WITHOUT a contract (the caller then has to be provable from the helper's body-less signature alone,
-                # i.e. Verus verifies the helper's body for safety and the caller sees no postcondition)
+                # a private helper called by a function under contract but not listed in the unit (typically split out by a
+                # refactoring) is INLINED at its call sites (R21), so the caller is verified against the same text as before the split
                 u2 = _types.SimpleNamespace(**{k: getattr(unit, k) for k in dir(unit) if not k.startswith("__")})
-                items = list(unit.ITEMS)
+                items = [dict(it) for it in unit.ITEMS]
                 for h in helpers:
-                    idx = next(i for i, it in enumerate(items) if it.get("kind") == "fn" and (it.get("label") or it.get("name")) == h["after"])
-                    base = items[idx]
-                    items.insert(idx + 1, dict(kind="fn", file=base["file"], impl=base.get("impl"), name=h["name"], label=h["name"],
-                                               auto_helper=True, math_inc=base.get("math_inc"), extra_rewrites=base.get("extra_rewrites", []),
-                                               impl_header_override=base.get("impl_header_override")))
+                    for it in items:
+                        if it.get("kind") == "fn" and (it.get("label") or it.get("name")) == h["after"]:
+                            it["inline_helpers"] = list(it.get("inline_helpers", [])) + [h["name"]]
                 u2.ITEMS = items
             bu = V.build_unit(repo, u2, variant)
         except Undecided as e:
@@ -84,7 +81,7 @@ def run_verus_unit(repo, unit_name, variant, workdir, log, only_fns=None):
         probe = V.run_verus(bu, os.path.join(workdir, "probe_" + unit_name), rlimit=1, extra_args=["--no-verify"], timeout=120)
         missing = None
         for d in probe["diags"]:
-            m = _re0.match(r"no method named `(\w+)` found for (?:struct|mutable reference|reference) `", d["msg"])
+            m = _re0.match(r"no (?:method|function or associated item|associated function or constant|associated item) named `(\w+)` found for (?:struct|mutable reference|reference|enum) `", d["msg"])
             if d["level"] == "error" and m and d["line"]:
                 fnmap0, _lm0 = _fn_ranges(bu)
                 owner = fnmap0.get(d["line"])
@@ -94,8 +91,9 @@ def run_verus_unit(repo, unit_name, variant, workdir, log, only_fns=None):
         if not missing:
             break
         helpers.append(missing)
-        log("  %s: extracting helper `%s` (called from %s, not listed in the unit) without a contract" % (vname, missing["name"], missing["after"]))
+        log("  %s: inlining helper `%s` at its call sites in %s (R21: not listed in the unit)" % (vname, missing["name"], missing["after"]))
     res["auto_helpers"] = helpers
+    res["_unit"] = u2
     text = bu.text()
     # assumption scan against the committed list
     scan = V.scan_assumptions(text)
@@ -227,6 +225,15 @@ def run_verus_unit(repo, unit_name, variant, workdir, log, only_fns=None):
             "verifier_output": d["raw"],
         })
         failed_count += 1
+    # failures inside a function that contains a construct Verus models imprecisely are not refutations
+    imprecise = {it.qualname(): it.imprecise for it in bu.items if getattr(it, "imprecise", None)}
+    screened = [f for f in res["failures"] if f["function"] in imprecise]
+    if screened:
+        res["failures"] = [f for f in res["failures"] if f["function"] not in imprecise]
+        for f in screened:
+            res["undecided"].append("proof of %s failed, but the function contains %s, which this Verus models imprecisely: undecided" % (f["obligation"], "; ".join(imprecise[f["function"]])))
+        if not res["failures"]:
+            res["status"] = "undecided"
     if only_fns is not None:
         # this property is carried only by the listed functions (and the lemmas/spec fns of the unit):
         # failures in the unit's other functions belong to other properties and are not reported here
@@ -286,9 +293,9 @@ def syntactic_checks(repo, unit):
     return out, problems
 
 
-def canary_check(repo, unit_name, variant, workdir):
+def canary_check(repo, unit_name, variant, workdir, unit=None):
     """The unit re-verified with one postcondition negated must fail."""
-    unit = importlib.import_module("units." + unit_name)
+    unit = unit or importlib.import_module("units." + unit_name)
     can = getattr(unit, "CANARY", None)
     if not can:
         return {"unit": unit_name, "canary": "none"}
@@ -358,7 +365,7 @@ def main(argv=None):
             results.append(r)
             log("  -> %s  obligations=%s discharged=%s  %.1fs" % (r["status"], r.get("obligations"), r.get("discharged"), r.get("wall_s", 0)))
             if r["status"] == "pass":
-                c = canary_check(repo, unit_name, variant, workdir)
+                c = canary_check(repo, unit_name, variant, workdir, r.get("_unit"))
                 canaries.append(c)
                 if c["canary"] == "VERIFIED-BUT-MUST-FAIL":
                     r["status"] = "undecided"
@@ -448,6 +455,8 @@ def finish(prop, tier, seed, spec, results, canaries, t0, log):
 
 
 def write_evidence(prop, tier, seed, spec, results, canaries, t0, violations=0, known=(), extra=None):
+    for r in results:
+        r.pop("_unit", None)
     if os.environ.get("VERIF_NO_EVIDENCE"):
         return  # dev runs against scratch trees (bin/muttest) must not overwrite the evidence of /repo
     os.makedirs(os.path.join(ROOT, "evidence"), exist_ok=True)
